@@ -138,6 +138,9 @@ def step (st : St) (line : String) : IO St := do
     if small "two_level_ex_diff" 1e-8 == some false then
       IO.println s!"ORACLE C10 extrapolated two-level cycle differs from u + P_ex A_c^-1 (4/3 R_ex r - 1/3 r_c) ({line.trimAscii})"
       st := { st with oracleFails := st.oracleFails + 1 }
+    if small "fmg_start_depends_on_extrapolation_diff" 1e-12 == some false then
+      IO.println s!"ORACLE C09 the FMG start vector without FMG cycles (coarsest solve + interpolation only) depends on the extrapolation mode ({line.trimAscii})"
+      st := { st with oracleFails := st.oracleFails + 1 }
     if small "fmg_two_level_diff" 1e-9 == some false then
       IO.println s!"ORACLE C09 two-level FMG start vector is not the interpolated coarse solution ({line.trimAscii})"
       st := { st with oracleFails := st.oracleFails + 1 }
